@@ -55,11 +55,11 @@ pub fn run(case: &Value, em: &mut Emitter) {
                 }
                 // one cursor session on the module iterator (small tables only); an item is (id, data) or an error
                 let sess = if count <= 256 {
-                    let it = b.iter_modules().map(|item| match item {
+                    let proj = |item: Result<sourcemap::ram_bundle::RamBundleModule, sourcemap::Error>| match item {
                         Ok(m) => json!({"id": m.id(), "r": {"k": "ok", "v": m.data().to_vec()}}),
                         Err(_) => json!({"id": -1, "r": {"k": "err", "v": []}}),
-                    });
-                    json!([crate::e05::session(Box::new(it), count + 2, &steps)])
+                    };
+                    json!([crate::e05::session(b.iter_modules(), proj, count + 2, &steps)])
                 } else { json!([]) };
                 json!({"k": "ok", "is": is, "count": num(count.min(u32::MAX as usize) as u32), "startup": startup, "gets": gets, "iter": iter, "sess": sess})
             }
